@@ -1,7 +1,7 @@
 """Regenerates the Inventory_*.cfg files (run by hand after changing the configuration table; not used by the check)."""
 import os
 D = os.path.dirname(os.path.abspath(__file__))
-TREES = {'Blk': (3, 1, 1), 'Core': (6, 3, 2), 'Edge': (6, 4, 4), 'Gap': (4, 1, 1)}
+TREES = {'Blk': (3, 1, 1), 'Core': (6, 3, 2), 'Edge': (6, 4, 4), 'Gap': (4, 1, 1), 'Cart': (4, 4, 3), 'Lfp': (3, 1, 1)}
 INV = """INVARIANT TypeOK
 INVARIANT VolumeAdditive
 INVARIANT MassIsDensityTimesVolume
@@ -27,7 +27,7 @@ def head(tree, level, targets, P, htargets, hvals, comment):
     s += "CONSTANTS Targets <- T%s%s  " % (tree, targets) + "  ".join("%s <- %s" % kv for kv in items[:7]) + "\n"
     s += "CONSTANTS " + "  ".join("%s <- %s" % kv for kv in items[7:]) + "\n"
     s += "CONSTANTS HDom <- HDom123  HTargets <- %s  HVals <- %s\n" % (htargets, hvals)
-    s += "CONSTANTS LeafVolCut <- LeafVolCutEnv  ScaleRaises <- ScaleRaisesEnv\n"
+    s += "CONSTANTS WithLump <- %s  LeafVolCut <- LeafVolCutEnv  ScaleRaises <- ScaleRaisesEnv\n" % ("Yes" if tree == "Lfp" else "No")
     return s
 
 
@@ -46,6 +46,9 @@ mk('blk_acct', 'Blk', 2, 'TargetsAll', 'T', 'TBlkHAll', 'HDom123', "one block of
 mk('core_acct', 'Core', 2, 'TargetsAll', 'Q', 'TCoreHAll', 'HDom123', "third core (centre assembly Sym 3 with two blocks + one full assembly): every accounting clause one edit deep, edits at all twelve nodes, height changes of all blocks; emitted for replay", EMIT + ACC + PROP)
 mk('edge_acct', 'Edge', 2, 'TargetsAll', 'Q', 'TEdgeHAll', 'HDom123', "third core with edge assemblies (Sym 3, 2, 2, 1): every accounting clause one edit deep, edits at all fifteen nodes; emitted for replay", EMIT + ACC + PROP)
 mk('gap_acct', 'Gap', 2, 'TargetsAll', 'Q', 'TGapHAll', 'HDom123', "one block with a closed fuel/clad gap (a Void component of negative hot area): every accounting clause one edit deep, edits at every node but the gap; emitted for replay", EMIT + ACC + PROP)
+mk('cart_acct', 'Cart', 2, 'TargetsAll', 'Q', 'TCartHAll', 'HDom123', "quarter-core Cartesian model through the centre assembly (Sym 4, 2, and an interior assembly with a bottom block and one above, Sym 1): every accounting clause one edit deep, edits at all twelve nodes; emitted for replay on CartesianBlocks", EMIT + ACC + PROP)
+mk('lfp_acct', 'Lfp', 2, 'TargetsAll', 'Q', 'TLfpHAll', 'HDom123', "the block tree with a lumped fission product (five nuclides): every accounting clause incl. the expanded densities one edit deep; emitted for replay on a block with a real LFP collection", EMIT + ACC + PROP)
+mk('lfp_inv_thorough', 'Lfp', 3, 'Targets', 'Q', 'TLfpHAll', 'HDom123', "thorough: every accounting clause as its own invariant (incl. ExpansionAdditive) and the read-back clauses two edits deep with the lumped fission product", INV + 'INVARIANT ExpansionAdditive\n' + PROP)
 mk('core_inv_thorough', 'Core', 2, 'TargetsAll', 'T', 'TCoreHAll', 'HDom123', "thorough: every accounting clause as its own invariant, one edit deep with rich parameters, third core", INV + PROP)
 mk('edge_inv_thorough', 'Edge', 2, 'TargetsAll', 'T', 'TEdgeHAll', 'HDom123', "thorough: every accounting clause as its own invariant, one edit deep with rich parameters, third core with edge assemblies", INV + PROP)
 mk('gap_inv_thorough', 'Gap', 3, 'TargetsAll', 'Q', 'TGapHAll', 'HDom123', "thorough: every accounting clause as its own invariant and the read-back clauses, two edits deep, block with a negative-area gap", INV + PROP)
